@@ -36,10 +36,10 @@ PROPS = {
     "C11": dict(palettes=[("PalRef", 0)],
                 negatives=[("RefRelease", "execReturn", "PalRef", 0)],
                 invs=["C11_RefOnce"]),
-    "C14": dict(palettes=[("PalDry", 0)],
+    "C14": dict(palettes=[("PalDry", 0), ("PalDry2", 0)],
                 negatives=[("DryRunAllocates", True, "PalDry", 0), ("DryRunPublishes", True, "PalDry", 0)],
                 invs=["C14_DryRun", "C14_NoIdConsumed", "C06_AckPersisted"]),
-    "C16": dict(palettes=[("PalKinds", 0), ("PalRevert", 0), ("PalDry", 0), ("PalIk", 1)],
+    "C16": dict(palettes=[("PalKinds", 0), ("PalRevert", 0), ("PalDry", 0), ("PalDry2", 0), ("PalIk", 1)],
                 negatives=[("RevertEventSwapped", True, "PalRevert", 0), ("DryRunPublishes", True, "PalDry", 0),
                            ("AckWaitsPersist", False, "PalKinds", 0)],
                 invs=["C16_EventsFaithful", "C16_AllPublished"]),
